@@ -433,6 +433,10 @@ func (n *lnode) why(c *lchain, b *types.Block) (string, string) {
 		}
 	}
 	am := n.BC.AccountManager()
+	if am.CurrentBlockHeight() != b.Height() {
+		// the engine's account manager was not even reset to this block's parent: refused before execution
+		return "before-or-outside-execution", ""
+	}
 	var roots []string
 	func() {
 		defer func() { recover() }()
@@ -573,10 +577,9 @@ func lRunPath(c *lchain, p lpath, r *core.Result, verbose bool) (trace []string,
 		mode = "miner"
 	}
 	t0 := time.Now()
-	if p.MapOrder > 0 {
-		vorder.SetPolicy(p.MapOrder)
-		defer vorder.SetPolicy(0)
-	}
+	oldOrder := vorder.Policy()
+	vorder.SetPolicy(p.MapOrder)
+	defer vorder.SetPolicy(oldOrder)
 	// every node is long-running: it receives the prefix in this process (a copy of a data directory would be a restart)
 	n := lNewNode()
 	lTimes["new"] += time.Since(t0)
